@@ -225,6 +225,40 @@ def check_automaton(chk, rule, prog, eff, cache, CS):
     chk.floor(rule, "paths of _cbor_builder_append classified", n, 10)
 
 
+def check_break(chk, rule, prog, cache, CS, PA, bfname):
+    """the break callback: pops and appends only when the stack is non-empty, the top is an indefinite item and, for a map,
+    the count is even; otherwise it raises the syntax error; _cbor_is_indefinite is true exactly for indefinite items"""
+    T = prog.enum("cbor_type")
+    se_off = prog.field_offset("_cbor_decoder_context", "syntax_error")
+    # 5. break
+    bf = prog.fn(bfname)
+    bwhere = "%s:%d" % (bf.file, bf.line)
+    size_off = prog.field_offset("_cbor_stack", "size")
+    for k, pa in enumerate(cache.get(bf.name)):
+        pops = pa.calls("_cbor_stack_pop")
+        apps = pa.calls("_cbor_builder_append")
+        se = any(e.kind == "store" and ptr_key(e.args[0])[1] == se_off and isinstance(ptr_key(e.args[0])[0], tuple) and ptr_key(e.args[0])[0][0] == "arg" and e.args[1] == ("c", 1) for e in pa.events)
+        TOP, _REC, empty, parity = frame_facts(prog, pa)
+        if pops or apps:
+            tys_, _iw, _fw, fl = CS.summary(bf, pa, TOP) if TOP is not None else (set(), set(), set(), set())
+            indef = bool(tys_) and tys_ <= set(PA.flavour_types) and fl == {1}
+            even_if_map = T["CBOR_TYPE_MAP"] not in tys_ or parity is False
+            ok = empty is False and indef and even_if_map and len(pops) == 1 and len(apps) == 1 and apps[0].args[0] == TOP and not se
+            chk.ob(rule, "break path %d: closes an open indefinite item (map: even parity)" % k, ok, bwhere, fn=bf.name, key="break-close:%d" % k,
+                   detail="" if ok else "stack known non-empty: %s, top known indefinite: %s (types %s, flavours %s), not a map or even count: %s"
+                   % (empty is False, indef, sorted(tys_), sorted(fl), even_if_map), path=pa.block_lines() if not ok else None)
+        else:
+            chk.ob(rule, "break path %d: otherwise a syntax error" % k, se, bwhere, fn=bf.name, key="break-err:%d" % k)
+    tab = PA.table("_cbor_is_indefinite")
+    bad = []
+    for pt, r in tab.items():
+        want = 1 if (pt[0] in PA.flavour_types and pt[3] == 1) else 0
+        if r != frozenset([want]):
+            bad.append((PA.relevant(pt), sorted(map(str, r))))
+    chk.ob(rule, "_cbor_is_indefinite is true exactly for indefinite strings/arrays/maps", not bad, "src/cbor/internal/builder_callbacks.c",
+           fn="_cbor_is_indefinite", key="is-indef", detail=str(bad[:3]))
+
+
 def run(ctx, chk):
     prog = ctx.prog()
     eff = ctx.effects(prog)
@@ -452,32 +486,7 @@ def run(ctx, chk):
     # 4b. the frame automaton of _cbor_builder_append, as a table over the parent's kind
     check_automaton(chk, "C02.automaton", prog, eff, cache, CS)
     # 5. break
-    bf = prog.fn(wired["indef_break"])
-    bwhere = "%s:%d" % (bf.file, bf.line)
-    size_off = prog.field_offset("_cbor_stack", "size")
-    for k, pa in enumerate(cache.get(bf.name)):
-        pops = pa.calls("_cbor_stack_pop")
-        apps = pa.calls("_cbor_builder_append")
-        se = any(e.kind == "store" and ptr_key(e.args[0])[1] == se_off and isinstance(ptr_key(e.args[0])[0], tuple) and ptr_key(e.args[0])[0][0] == "arg" and e.args[1] == ("c", 1) for e in pa.events)
-        TOP, _REC, empty, parity = frame_facts(prog, pa)
-        if pops or apps:
-            tys_, _iw, _fw, fl = CS.summary(bf, pa, TOP) if TOP is not None else (set(), set(), set(), set())
-            indef = bool(tys_) and tys_ <= set(PA.flavour_types) and fl == {1}
-            even_if_map = T["CBOR_TYPE_MAP"] not in tys_ or parity is False
-            ok = empty is False and indef and even_if_map and len(pops) == 1 and len(apps) == 1 and apps[0].args[0] == TOP and not se
-            chk.ob("C02.break", "break path %d: closes an open indefinite item (map: even parity)" % k, ok, bwhere, fn=bf.name, key="break-close:%d" % k,
-                   detail="" if ok else "stack known non-empty: %s, top known indefinite: %s (types %s, flavours %s), not a map or even count: %s"
-                   % (empty is False, indef, sorted(tys_), sorted(fl), even_if_map), path=pa.block_lines() if not ok else None)
-        else:
-            chk.ob("C02.break", "break path %d: otherwise a syntax error" % k, se, bwhere, fn=bf.name, key="break-err:%d" % k)
-    tab = PA.table("_cbor_is_indefinite")
-    bad = []
-    for pt, r in tab.items():
-        want = 1 if (pt[0] in PA.flavour_types and pt[3] == 1) else 0
-        if r != frozenset([want]):
-            bad.append((PA.relevant(pt), sorted(map(str, r))))
-    chk.ob("C02.break", "_cbor_is_indefinite is true exactly for indefinite strings/arrays/maps", not bad, "src/cbor/internal/builder_callbacks.c",
-           fn="_cbor_is_indefinite", key="is-indef", detail=str(bad[:3]))
+    check_break(chk, "C02.break", prog, cache, CS, PA, wired["indef_break"])
     # 6. no reference into the input buffer: trace-level uses of the buffer parameter
     for fn in sorted({v for v in wired.values() if v}) + ["cbor_load"]:
         f = prog.fn(fn)
@@ -521,6 +530,15 @@ def run(ctx, chk):
                                    "with C05")
     from props.c05 import check_no_silent_drop
     check_no_silent_drop(chk, "C02.no-silent-drop", prog, eff)
+    chk.rule("C02.balance", "every node of the tree cbor_load hands over is owned exactly once: cbor_load, the builder callbacks and "
+             "_cbor_builder_append release, hand off or return each reference they hold exactly once on every path - also where an "
+             "insertion is refused (shared with C05.nothing-left / C04.client)")
+    from props.c06 import check_balance
+    _cb2 = O.PathCache(prog, eff)
+    _N2 = O.Nullness(prog, eff, _cb2)
+    _B2 = O.Balance(prog, eff, _cb2, _N2)
+    check_balance(chk, "C02.balance", prog, eff, _cb2, _N2, _B2, tables.constructors(prog, eff),
+                  fnames=sorted({v for v in wired.values() if v}) + ["_cbor_builder_append", "cbor_load"], floor=20)
     chk.rule("C02.insert-refusal", "well-formed input is accepted: the insertion routines the builder relies on refuse only when an "
              "allocation failed, an overflow guard answered false or a definite container is full - not for a reason of their own "
              "such as the content of a chunk (shared with C12.refusal-justified)")
@@ -536,4 +554,9 @@ def run(ctx, chk):
              "tracked modulo 2^32)")
     import rules as _rn
     _rn.check_narrowing(chk, "C02.narrowing", prog, eff=eff)
+    chk.rule("C02.block-bounds", "every load, store and block copy at a constant offset into a block that the same path obtained from the "
+             "allocator with a constant request lies inside the request (the decoding stack's records and the items of the tree live in blocks of the size their type needs)")
+    import rules as _rbb
+    import ownership as _Obb
+    _rbb.check_fresh_block_bounds(chk, "C02.block-bounds", prog, eff, _Obb.PathCache(prog, eff))
     chk.exhaustive = True
